@@ -36,10 +36,13 @@ BREAKING = [
  ("C10-cfb-dec-feedback", ["C10"], "kernel/multi_aes/aes/aesmode.cpp", "    crypt.runaes_128bit(iv);\n    getXor(block, iv);\n    memcpy(iv, nxt_iv, 16);", "    crypt.runaes_128bit(iv);\n    getXor(block, iv);\n    memcpy(iv, block, 16);"),
  ("C11-F4-reverted", ["C11", "C12"], "kernel/cry.cpp", "  if (header.getctype() > 4 || header.gethtype() > 2)\n    return 3;\n", ""),
  ("C11-F5-reverted", ["C11"], "kernel/multi_aes/multi_buffergroup.cpp", "    if (padding > 16)\n      padding = 0;", "    if (padding > 160)\n      padding = 0;"),
- ("C11-magic-length-check", ["C11"], "kernel/fheader.cpp", "    if (sum != 8)\n        return false;", "    if (sum < 4)\n        return false;"),
+ ("C11-tag-area-length-16", ["C11", "C12"], "kernel/cry.cpp", "u8_t *hash = header.getHmac(64);", "u8_t *hash = header.getHmac(16);"),
  ("C13-tag-field-prefilled", ["C13", "C02"], "kernel/fheader.cpp", "memset(padding, 0, sizeof(padding));", "memset(padding, 0xFF, sizeof(padding));"),
+ ("C15-F8-reverted", ["C15"], "valget/getopts.cpp", "    optind = 0;", "    optind = 1;"),
+ ("C04-wait-ready-if-instead-of-while", ["C04", "C14", "C03"], "kernel/multi_aes/multi_buffergroup.cpp", "  while (state != READY && state != INV)\n    cv_ready.wait(locker);", "  if (state != READY && state != INV)\n    cv_ready.wait(locker);"),
+ ("C04-wait-update-if-instead-of-while", ["C04", "C14", "C03"], "kernel/multi_aes/multi_buffergroup.cpp", "  while (state != UPDATING && state != EMPTY)\n    cv_update.wait(locker);", "  if (state != UPDATING && state != EMPTY)\n    cv_update.wait(locker);"),
  ("C15-no-del-instance-on-decrypt", ["C15"], "kernel/cry.cpp", "    resultprint->printtask(\"Releasing allocated memory\");\n    buffergroup::del_instance();", "    resultprint->printtask(\"Releasing allocated memory\");"),
- ("C15-live-not-decremented", ["C15", "C04"], "kernel/multi_aes/multi_buffergroup.cpp", "    state = INV;\n    live_num--;", "    state = INV;\n    if (live_num > 1) live_num--; else live_num = 0;"),
+ ("C15-live-reset-instead-of-decrement", ["C15", "C04"], "kernel/multi_aes/multi_buffergroup.cpp", "    state = INV;\n    live_num--;", "    state = INV;\n    if (live_num > 2) live_num--; else live_num = 0;"),
  ("C16-b64-tab-entry", ["C16"], "valget/base64/tab.h", "'3', '4', '5', '6', '7', '8', '9', '+', '/'};", "'3', '4', '5', '6', '7', '8', '9', '-', '/'};"),
  ("C16-F6-reverted", ["C16"], "valget/base64/base64.cpp", "return tail == 2;", "return tail <= 2;"),
  ("C17-no-key-check-for-verify", ["C17"], "valget/getopts.cpp", "    else if (res->mode == 'd' || res->mode == 'v')\n    {", "    else if (res->mode == 'd')\n    {"),
@@ -48,6 +51,10 @@ BREAKING = [
  ("C18-ctr-not-advancing-after-256", ["C18", "C10"], "kernel/multi_aes/aes/aesmode.cpp", "    getXor(block, mask);\n    ctrInc();", "    getXor(block, mask);\n    iv[15]++;"),
 ]
 HARMLESS = [
+ # equivalent mutants found by the first self-test run (the checks rightly stayed silent)
+ ("H-alog-entry-unused", ["C09"], "kernel/multi_aes/aes/tab.h", "    57,  75,  221, 124, 132, 151, 162, 253, 28,  36,  108, 180, 199, 82,  246,\n    1,   1,", "    57,  75,  220, 124, 132, 151, 162, 253, 28,  36,  108, 180, 199, 82,  246,\n    1,   1,"),
+ ("H-magic-length-check", ["C11"], "kernel/fheader.cpp", "    if (sum != 8)\n        return false;", "    if (sum < 4)\n        return false;"),
+ ("H-live-decrement-spelled-out", ["C15", "C04"], "kernel/multi_aes/multi_buffergroup.cpp", "    state = INV;\n    live_num--;", "    state = INV;\n    if (live_num > 1) live_num--; else live_num = 0;"),
  # equivalent mutant: after repair F2 a worker calls set_update only in state READY or INV, so `!= INV` and `== READY` coincide
  ("H-set_update-not-inv", ["C03", "C14"], "kernel/multi_aes/multi_buffergroup.cpp", "  if (state == READY)\n  {\n    state = UPDATING;", "  if (state != INV)\n  {\n    state = UPDATING;"),
  ("H-notify-one", ["C03", "C04", "C14"], "kernel/multi_aes/multi_buffergroup.cpp", "    state = UPDATING;\n    cv_update.notify_all();", "    state = UPDATING;\n    cv_update.notify_one();"),
@@ -56,6 +63,8 @@ HARMLESS = [
  ("H-fout-256", ["C17"], "valget/getopts.cpp", "char fout[128];", "char fout[128]; /* same size */"),
  ("H-extra-lock-in-wait", ["C03", "C04"], "kernel/multi_aes/multi_buffergroup.cpp", "void buffergroup::wait_buffer_loaded(const u8_t id)\n{\n  ctrl[id].wait_ready();", "void buffergroup::wait_buffer_loaded(const u8_t id)\n{\n  ctrl[id].wait_ready();\n  ctrl[id].wait_ready();"),
  ("H-sha1-ch-xor-form", ["C07"], "kernel/hash/sha1.cpp", "#define HASH_A(h1, h2, h3) ((h1 & h2) | ((~h1) & h3))", "#define HASH_A(h1, h2, h3) ((h1 & h2) ^ ((~h1) & h3))"),
+ ("H-longopts-reordered", ["C17", "C15"], "valget/getopts.cpp", "    {\"encode\", no_argument, NULL, 'e'},\n    {\"decode\", no_argument, NULL, 'd'},", "    {\"decode\", no_argument, NULL, 'd'},\n    {\"encode\", no_argument, NULL, 'e'},"),
+ ("H-optind-reset-twice", ["C15", "C17"], "valget/getopts.cpp", "    optind = 0;", "    optind = 1;\n    optind = 0;"),
  ("H-header-one-write", ["C13", "C02"], "kernel/fheader.cpp", "    fwrite(&ctype, 1, 1, out);\n    fwrite(&htype, 1, 1, out);", "    u8_t modes[2] = {ctype, htype};\n    fwrite(modes, 1, 2, out);"),
 ]
 
@@ -67,7 +76,8 @@ def fix_table():
             out.append(("C05-mac-from-68", ["C05", "C02", "C08"], "kernel/cry.cpp", "fseek(fin, FILE_IV_MARK, SEEK_SET);\n  if (!hmachandle.cmphmac", "fseek(fin, FILE_IV_MARK + 20, SEEK_SET);\n  if (!hmachandle.cmphmac"))
             out.append(("C05-mac-from-68-both-sides", ["C05", "C02", "C08"], "kernel/cry.cpp", None, None))
         elif m[0] == "C09-alog-entry-high":
-            out.append(("C09-alog-entry-high", ["C09"], "kernel/multi_aes/aes/tab.h", "    57,  75,  221, 124, 132, 151, 162, 253, 28,  36,  108, 180, 199, 82,  246,\n    1,   1,", "    57,  75,  220, 124, 132, 151, 162, 253, 28,  36,  108, 180, 199, 82,  246,\n    1,   1,"))
+            # an entry beyond index 493 = 238 + 255 is never read (equivalent mutant, see HARMLESS); this one (index 480) is
+            out.append(("C09-alog-entry-480", ["C09"], "kernel/multi_aes/aes/tab.h", "    54,  90,  238, 41,  123, 141, 140, 143, 138, 133, 148, 167, 242, 13,  23,\n    57,  75,  221, 124, 132, 151, 162, 253, 28,  36,  108, 180, 199, 82,  246,\n    1,   1,", "    55,  90,  238, 41,  123, 141, 140, 143, 138, 133, 148, 167, 242, 13,  23,\n    57,  75,  221, 124, 132, 151, 162, 253, 28,  36,  108, 180, 199, 82,  246,\n    1,   1,"))
         else:
             out.append(m)
     final = []
